@@ -6,12 +6,15 @@ the same machine on concrete configurations with the slot values stated as Real 
 spatial_average as one action per frame with a cursor on the neighbour file, time_average
 as one action per window.  The clauses of the property are TLC invariants.
 
-Direction A: every case TLC prints is rendered (snapshots with per-frame cells and bounds,
-neighbour files with the rows in the order the spec states, property arrays in one of several
-representations: float64 / int / bool / float32 / read-only / strided / Fortran order), the
-public routine is called, the result is compared with the spec's expectation (rationals,
-admissible sets, evaluated terms).  Grid positions of every frame are projected to integers and
-handed to TraceCoarseGrain.tla, which decides bijection / order / spanning that frame's bounds.
+Direction A: every case TLC prints is rendered (snapshots whose frames each carry their own
+bounds and their own cell, two independent attributes; neighbour files with the rows in the
+order the spec states; property arrays in one of several representations: float64 / int / bool /
+float32 / read-only / strided / Fortran order; ngrids as array / list / tuple; whole-number
+sigma / cut-off / period as float / int / numpy scalar), the public routine is called, the
+result is compared with the spec's expectation (rationals, admissible sets, evaluated terms).
+Grid positions of every frame are projected to integers and handed to TraceCoarseGrain.tla,
+which holds the frame cursor of the call and decides bijection / order / spanning THAT frame's
+bounds (clause GridSpansFrameBounds:grid-of-another-frame when it is another frame's grid).
 Direction B: seeded random scaled-integer inputs, larger than TLC's scope, are run through
 the real code; TraceCoarseGrain.tla (with the file cursor as a spec variable) accepts or
 rejects the discrete observations and prints the expected terms of the blurred values.
@@ -31,7 +34,8 @@ from .common import Check, MachineryError, require_model_ok, run_tlc, run_tlc_sh
 
 GRID_INVS = ["InvWriteOnce", "InvFlatIndexIsBijection", "InvXSlowest", "InvSlotIsUnflat", "InvVisitOrder"]
 BLUR_INVS = ["InvWriteOnce", "InvFlatIndexIsBijection", "InvXSlowest", "InvSlotIsUnflat", "InvImagesAreMinImage",
-             "InvGridSpansFrameBounds", "InvBlurUnwrapInvariant"]
+             "InvGridSpansFrameBounds", "InvBlurUnwrapInvariant", "InvBlurTranslationInvariant",
+             "InvFrameGridFromItsBounds", "InvGridIsFunctionOfFrameBounds", "InvEquallySpaced"]
 SPATIAL_INVS = ["InvCursorFollowsFrames", "InvSpatialMeanDefinition", "InvSpatialConvex", "InvSpatialConstant",
                 "InvNoSelfCountedTwice", "InvRowOrderIrrelevant", "InvBoolIsFraction", "InvNmaxAboveCounts"]
 WINDOW_INVS = ["InvWindowLenIsFloor", "InvExactMultiple", "InvWindowComplete", "InvWindowCentre",
@@ -137,12 +141,24 @@ def to_int(x, scale):
 # gaussian_blurring
 # --------------------------------------------------------------------------
 
-def grid_record(ng, bounds, gp_frame, scale=1):
+def grid_scale(ng):
     M = 1
     for n in ng:
-        M = math.lcm(M, max(n - 1, 1))
+        M = math.lcm(M, max(int(n) - 1, 1))
+    return M
+
+
+def open_record(ng, bs):
+    """a gaussian_blurring call: numbers of points and the (scaled-integer) bounds of every frame of the trajectory;
+    the trace spec keeps them and the frame cursor"""
+    return {"op": "blur_open", "ng": [int(n) for n in ng], "bs": bs}
+
+
+def grid_record(ng, gp_frame, scale=1):
+    """the grid returned for the next frame of the open call, projected to integers (unit 1 / (scale M))"""
+    M = grid_scale(ng)
     obs, exact = to_int(gp_frame, scale * M)
-    return {"op": "grid", "ng": list(ng), "bounds": bounds, "M": M, "obs": obs.tolist(), "exact": int(exact)}
+    return {"op": "grid", "M": M, "obs": obs.tolist(), "exact": int(exact)}
 
 
 BLUR_KINDS = ("float64", "float64", "int64", "bool", "float32", "readonly", "strided", "fortran")
@@ -171,23 +187,77 @@ def cond_array(rng, F, N, d, rank, kind="float64"):
     return x
 
 
-def blur_call(gaussian_blurring, ss, cond, ng, sigma, ppp, cut, outputfile="", ngkind=0):
+NG_KINDS = ("int64 array", "int32 array", "read-only array", "list", "tuple")
+PPP_KINDS = ("int64 array", "int32 array", "strided view", "read-only array")
+NUM_KINDS = ("float", "int", "numpy.float64")
+
+
+def render_ngrids(ng, ngkind):
+    """the numbers of grid points as a caller may hold them (the documentation's own example is the list [25, 25])"""
+    ng = [int(n) for n in ng]
+    if ngkind == 3:
+        return list(ng)
+    if ngkind == 4:
+        return tuple(ng)
+    nga = np.array(ng, dtype=np.int32) if ngkind == 1 else np.array(ng, dtype=np.int64)
+    if ngkind == 2:
+        nga.setflags(write=False)
+    return nga
+
+
+def render_mask(ppp, pkind, three=False):
+    m = [int(x) for x in ppp] + ([1] if three and len(ppp) == 2 else [])   # a three-entry mask (the default's length) for 2-D
+    if pkind == 1:
+        return np.array(m, dtype=np.int32)
+    if pkind == 2:
+        big = np.full(2 * len(m), 7, dtype=np.int64)
+        big[::2] = m
+        return big[::2]
+    pa = np.array(m, dtype=np.int64)
+    if pkind == 3:
+        pa.setflags(write=False)
+    return pa
+
+
+def render_number(q, nkind):
+    """a rational argument (sigma, cut-off, time step, period) as a float - or, where it is a whole number, as the int
+    or numpy scalar a caller may equally pass"""
+    if q[1] == 1 and nkind == 1:
+        return int(q[0])
+    if nkind == 2:
+        return np.float64(q[0] / q[1])
+    return q[0] / q[1]
+
+
+def frozen(ss, cond):
+    """what a call must leave as it found it"""
+    return [(sn.positions.copy(), np.array(sn.hmatrix, copy=True), np.array(sn.boxbounds, copy=True)) for sn in ss.snapshots], \
+        np.array(cond, copy=True)
+
+
+def unchanged(ss, cond, before):
+    fr, c0 = before
+    return all(np.array_equal(sn.positions, p) and np.array_equal(sn.hmatrix, h) and np.array_equal(sn.boxbounds, b)
+               for sn, (p, h, b) in zip(ss.snapshots, fr)) and np.array_equal(np.asarray(cond), c0)
+
+
+def blur_call(gaussian_blurring, ss, cond, ng, sig, ppp, cut, outputfile="", ngkind=0, pkind=0, nkind=0):
+    """sig, cut: rationals [n, d].  Returns (grid positions, values, exception)."""
     try:
-        nga = np.array(ng) if ngkind == 0 else np.array(ng, dtype=np.int32)
-        if ngkind == 2:
-            nga.setflags(write=False)
-        if sigma == 2.0 and cut == 6.0 and all(ppp) and not outputfile:
+        nga = render_ngrids(ng, ngkind)
+        if list(sig) == [2, 1] and list(cut) == [6, 1] and all(ppp) and not outputfile:
             gp, gv = gaussian_blurring(ss, cond, nga)        # documented defaults
         else:
-            pa = np.array(ppp)
-            if ngkind == 2:
-                pa.setflags(write=False)
-            elif ngkind == 1 and len(ng) == 2:
-                pa = np.array(list(ppp) + [1])       # a three-entry mask (the default's length) for a 2-D system
-            gp, gv = gaussian_blurring(ss, cond, nga, sigma=sigma, ppp=pa, gaussian_cut=cut, outputfile=outputfile)
+            pa = render_mask(ppp, pkind, three=(ngkind == 1))
+            gp, gv = gaussian_blurring(ss, cond, nga, sigma=render_number(sig, nkind), ppp=pa,
+                                       gaussian_cut=render_number(cut, (nkind + 1) % 3), outputfile=outputfile)
         return np.asarray(gp), np.asarray(gv), None
     except Exception as e:  # the library failing on a valid input is a violation
         return None, None, e
+
+
+def bump(chk, key, n=1):
+    chk.extra[key] = chk.extra.get(key, 0) + n
 
 
 def replay_blur(chk, case, lib, rng, trace, ranks, tmp=None):
@@ -195,30 +265,44 @@ def replay_blur(chk, case, lib, rng, trace, ranks, tmp=None):
     ng, Hs, bs = case["ng"], case["Hs"], case["bs"]
     d, F = len(ng), len(case["pos"])
     N = len(case["pos"][0])
-    sigma = case["sig"][0] / case["sig"][1]
-    cut = case["cut"][0] / case["cut"][1]
-    # every frame carries its own cell and box bounds
+    # every frame carries its own cell and its own box bounds (two independent attributes of a frame)
     ss = snapshots([snapshot(f, case["pos"][f], Hs[f], bs[f]) for f in range(F)])
     brief = {k: case[k] for k in ("m", "ng", "Hs", "bs", "ppp", "pos", "sig", "cut")}
     P = int(np.prod(ng))
+    h = crc(brief)
+    kinds = dict(ngkind=h % len(NG_KINDS), pkind=(h // 5) % len(PPP_KINDS), nkind=(h // 20) % len(NUM_KINDS))
+    how = {"ngrids": NG_KINDS[kinds["ngkind"]], "ppp": PPP_KINDS[kinds["pkind"]], "sigma": NUM_KINDS[kinds["nkind"]]}
     for rank in ranks:
         kind = BLUR_KINDS[crc(brief, rank) % len(BLUR_KINDS)]
         cond = cond_array(rng, F, N, d, rank, kind)
-        gp, gv, err = blur_call(gaussian_blurring, ss, cond, ng, sigma, case["ppp"], cut, ngkind=crc(brief) % 3)
+        before = frozen(ss, cond)
+        gp, gv, err = blur_call(gaussian_blurring, ss, cond, ng, case["sig"], case["ppp"], case["cut"], **kinds)
         if err is not None:
-            chk.violation(f"raises:{type(err).__name__}", dict(brief, rank=rank, cond_kind=kind, error=str(err), full=case),
+            chk.violation(f"raises:{type(err).__name__}", dict(brief, rank=rank, cond_kind=kind, rendered=how, error=str(err), full=case),
                           finding_key="gaussian_blurring:flat-index")
             return
         if gp.shape != (F, P, d) or gv.shape != (F, P) + (d,) * rank:
             chk.violation("GridShape", dict(brief, rank=rank, obs_shape=[list(gp.shape), list(gv.shape)], full=case))
             return
+        if not unchanged(ss, cond, before):
+            chk.violation("BlurInputUnchanged", dict(brief, rank=rank, cond_kind=kind, full=case))
+            return
         bad = None
         nties = 0
-        for f in range(F):
-            if rank == ranks[0]:
-                rec = grid_record(ng, bs[f], gp[f])
-                rec["ctx"] = dict(brief, frame=f)
+        if rank == ranks[0]:
+            # the returned grids go to the trace specification (frame cursor), which names what is wrong with them; where
+            # a grid is not the one the model filed for the frame, the values (taken at other points) are not compared
+            trace.append(dict(open_record(ng, bs), ctx=brief))
+            grids_ok = True
+            for f in range(F):
+                rec = grid_record(ng, gp[f])
+                rec["ctx"] = dict(brief, frame=f, bounds_of_the_frame=bs[f], rendered=how)
                 trace.append(rec)
+                grids_ok = grids_ok and rec["exact"] == 1 and rec["M"] == case["M"] and rec["obs"] == case["grids"][f]
+            if not grids_ok:
+                bump(chk, "blur_cases_left_to_the_trace_specification_because_of_their_grid")
+                return
+        for f in range(F):
             env = {j + 1: np.asarray(cond[f, j], dtype=float) for j in range(N)}
             for s in range(P):
                 sl = case["slots"][s]
@@ -238,7 +322,7 @@ def replay_blur(chk, case, lib, rng, trace, ranks, tmp=None):
                         continue
                 bad = {"frame": f, "slot": s, "point": sl["pt"], "observed": np.asarray(gv[f, s]).tolist(),
                        "expected": np.asarray(lo).tolist() if np.ndim(lo) else float(lo), "n_inside": fr["nin"],
-                       "n_on_cutoff": fr["nedge"], "cond_kind": kind}
+                       "n_on_cutoff": fr["nedge"], "cond_kind": kind, "rendered": how}
                 break
             if bad:
                 break
@@ -250,7 +334,7 @@ def replay_blur(chk, case, lib, rng, trace, ranks, tmp=None):
         count_kind(chk, "blur", kind)
     if tmp and sum(ng) % 4 == 0:      # the saved arrays are the returned arrays
         base = os.path.join(tmp, "blur")
-        gp2, gv2, err = blur_call(gaussian_blurring, ss, cond, ng, sigma, case["ppp"], cut, outputfile=base)
+        gp2, gv2, err = blur_call(gaussian_blurring, ss, cond, ng, case["sig"], case["ppp"], case["cut"], outputfile=base, **kinds)
         try:
             same = err is None and np.array_equal(np.load(base + "_positions.npy"), gp2) and \
                 np.array_equal(np.load(base + "_properties.npy"), gv2) and np.array_equal(gp2, gp) and np.array_equal(gv2, gv)
@@ -259,11 +343,13 @@ def replay_blur(chk, case, lib, rng, trace, ranks, tmp=None):
         if not same:
             chk.violation("BlurOutputFile", dict(brief, error=str(err)))
             return
-    if F > 1 and any(bs[f] != bs[0] for f in range(F)):
-        chk.extra["blur_trajectories_with_bounds_changing_between_frames"] = \
-            chk.extra.get("blur_trajectories_with_bounds_changing_between_frames", 0) + 1
-    chk.ok(("blur", str(brief)), sample={"gaussian_blurring": brief, "slots": P, "ranks": list(ranks)})
-    chk.extra["blur_slot_values_compared"] = chk.extra.get("blur_slot_values_compared", 0) + P * F * len(ranks)
+    for k, v in how.items():
+        bump(chk, f"blur_{k}_rendered_as_{v.replace(' ', '_')}")
+    for f in range(1, F):
+        bump(chk, "blur_frame_transitions_cell_%s_bounds_%s" % (
+            "same" if Hs[f] == Hs[f - 1] else "changed", "same" if bs[f] == bs[f - 1] else "changed"))
+    chk.ok(("blur", str(brief)), sample={"gaussian_blurring": brief, "slots": P, "ranks": list(ranks), "rendered": how})
+    bump(chk, "blur_slot_values_compared", P * F * len(ranks))
 
 
 # --------------------------------------------------------------------------
@@ -325,6 +411,11 @@ def replay_spatial(chk, case, lib, tmp):
             chk.violation("SpatialOutputFile", dict(small, full=case))
             return
     count_kind(chk, "spatial", kind)
+    per = [max(len(r) for r in fr) for fr in case["file"][:F]]
+    if len(set(per)) > 1:
+        bump(chk, "spatial_calls_whose_frames_differ_in_largest_coordination_number")
+    if 0 in per and F > 1:
+        bump(chk, "spatial_calls_with_a_frame_that_lists_nothing")
     if any([r[0] for r in fr] != sorted(r[0] for r in fr) for fr in case["rows"]):
         chk.extra["spatial_files_with_rows_out_of_id_order"] = chk.extra.get("spatial_files_with_rows_out_of_id_order", 0) + 1
     chk.ok(("spatial", json.dumps(case["rows"]), case["nmax"], rank, d, case["kind"]),
@@ -342,7 +433,10 @@ WINDOW_REAL_KINDS = ("float64", "int64", "int32", "float32", "readonly", "stride
 def window_inputs(case, kind=None):
     """returns (snapshots, property array, rtol); kind: representation of the property array"""
     T, N, C = case["T"], case["N"], case["C"]
-    ss = snapshots([snapshot(case["ts"][f], [[0.0, 0.0]] * N, [[4, 0], [0, 4]], [[0, 4], [0, 4]]) for f in range(T)])
+    # the frames of the series differ in every attribute but the number of particles (positions, cell, bounds, timestep):
+    # the window mean is a function of the property and the timesteps alone
+    ss = snapshots([snapshot(case["ts"][f], [[0.25 * f + i, 0.5 * i - f] for i in range(N)], [[4 + f, 0], [f % 3 - 1, 5 + f % 2]],
+                             [[-f, 4], [f % 2, 5 + f]]) for f in range(T)])
     if C == 2:
         p = np.array(case["prop"], dtype=float)          # [T, N, 2]: real and imaginary part
         prop = p[:, :, 0] + 1j * p[:, :, 1]
@@ -379,10 +473,12 @@ def replay_window(chk, case, lib):
             for i, u in enumerate(fr):
                 if u:
                     prop[f, i] = np.nan
-    period = case["period"][0] / case["period"][1]
-    dt = case["dt"][0] / case["dt"][1]
+    nk = crc(case["ts"], case["period"]) % len(NUM_KINDS)
+    period = render_number(case["period"], nk)           # whole numbers also as int / numpy scalar
+    dt = render_number(case["dt"], (nk + 1) % len(NUM_KINDS))
     brief = {k: case[k] for k in ("m", "T", "N", "C", "kind", "ts", "dt", "period", "w")}
     brief["dtype"] = kind
+    brief["period_rendered_as"] = type(period).__name__
     brief["undefined_entries"] = [[f, i + 1] for f, fr in enumerate(case.get("undef", [])) for i, u in enumerate(fr) if u]
     try:
         res, mid = time_average(ss, prop, time_period=period, dt=dt)
@@ -421,6 +517,18 @@ def replay_window(chk, case, lib):
 # direction B: generators
 # --------------------------------------------------------------------------
 
+def bounding_box(H, lo):
+    """box bounds of a LAMMPS box with cell H (lower triangular, scaled integers) and origin lo"""
+    d = len(H)
+    L = [H[i][i] for i in range(d)]
+    if d == 2:
+        xy = H[1][0]
+        return [[lo[0] + min(0, xy), lo[0] + L[0] + max(0, xy)], [lo[1], lo[1] + L[1]]]
+    xy, xz, yz = H[1][0], H[2][0], H[2][1]
+    return [[lo[0] + min(0, xy, xz, xy + xz), lo[0] + L[0] + max(0, xy, xz, xy + xz)],
+            [lo[1] + min(0, yz), lo[1] + L[1] + max(0, yz)], [lo[2], lo[2] + L[2]]]
+
+
 def rand_cell(rng, d, S, lmin, lmax, tilt_p=0.5):
     L = [rng.randint(lmin * S, lmax * S) for _ in range(d)]
     H = [[0] * d for _ in range(d)]
@@ -431,34 +539,77 @@ def rand_cell(rng, d, S, lmin, lmax, tilt_p=0.5):
             for j in range(i):
                 H[i][j] = rng.randint(-(H[j][j] // 2), H[j][j] // 2)
     lo = [rng.randint(-3 * S, 3 * S) for _ in range(d)]
-    if d == 2:
-        xy = H[1][0]
-        bounds = [[lo[0] + min(0, xy), lo[0] + L[0] + max(0, xy)], [lo[1], lo[1] + L[1]]]
+    return H, bounding_box(H, lo), lo
+
+
+CELL_STEPS = ("same", "lengths", "tilt")
+BOUNDS_STEPS = ("same", "shifted")
+
+
+def next_frame(rng, d, S, prev, cstep, bstep):
+    """the next frame of a trajectory: its cell and its bounds are chosen independently of each other.
+    cstep: 'same' | 'lengths' (other edge lengths, same tilts) | 'tilt' (same lengths, other tilts) | 'new';
+    bstep: 'same' (the previous bounds, verbatim) | 'shifted' (origin moved, same lengths) | 'box' (the bounding box
+    of the new cell at a new origin, as LAMMPS writes it)"""
+    H0, b0 = prev
+    H = [row[:] for row in H0]
+    if cstep == "lengths":
+        while H == H0:
+            for i in range(d):
+                if rng.random() < 0.7:
+                    H[i][i] = rng.randint(3 * S, 8 * S)
+    elif cstep == "tilt":
+        while H == H0:
+            for i in range(d):
+                for j in range(i):
+                    H[i][j] = rng.randint(-(H[j][j] // 2), H[j][j] // 2)
+    elif cstep == "new":
+        H = rand_cell(rng, d, S, 3, 8)[0]
+    if bstep == "same":
+        b = [r[:] for r in b0]
+    elif bstep == "shifted":
+        t = [0] * d
+        while not any(t):
+            t = [rng.randint(-4 * S, 4 * S) for _ in range(d)]
+        b = [[r[0] + t[k], r[1] + t[k]] for k, r in enumerate(b0)]
     else:
-        xy, xz, yz = H[1][0], H[2][0], H[2][1]
-        bounds = [[lo[0] + min(0, xy, xz, xy + xz), lo[0] + L[0] + max(0, xy, xz, xy + xz)],
-                  [lo[1] + min(0, yz), lo[1] + L[1] + max(0, yz)], [lo[2], lo[2] + L[2]]]
-    return H, bounds, lo
+        b = bounding_box(H, [rng.randint(-3 * S, 3 * S) for _ in range(d)])
+    return H, b
 
 
-def gen_blur(rng, lib, ncalls, trace, ctx):
-    """random scaled-integer trajectories (every frame with its own cell, origin and bounds) -> real code;
-    'grid' records carry the discrete observation, 'blur' records ask the trace spec for the expected terms"""
+def gen_blur(rng, lib, ncalls, trace, ctx, chk=None):
+    """random scaled-integer trajectories -> real code.  Every frame has its own cell and its own bounds, two independent
+    attributes: the first twelve calls go through (same cell | other lengths | other tilt) x (same bounds | origin shifted at
+    the same lengths) in 2-D and 3-D, the others draw every step at random (incl. whole new boxes, gsd-style bounds =
+    extent of the particles, and frames that repeat the previous positions).  'blur_open' / 'grid' records carry the
+    discrete observation (the trace spec holds the frame cursor), 'blur' records ask it for the expected terms"""
     pending = {}
+    plans = [(d, c, b) for d in (2, 3) for c in CELL_STEPS for b in BOUNDS_STEPS]
     for call in range(ncalls):
-        d = rng.choice([2, 2, 3])
+        if call < len(plans):
+            d, c0, b0 = plans[call]
+            F = 2 + (call % 3 == 1)
+            steps = [(c0, b0)] + [(rng.choice(CELL_STEPS), rng.choice(BOUNDS_STEPS)) for _ in range(F - 2)]
+            rng.shuffle(steps)
+        else:
+            d = rng.choice([2, 2, 3])
+            F = rng.choice([1, 2, 2, 3])
+            steps = [(rng.choice(CELL_STEPS + ("new", "new")), rng.choice(BOUNDS_STEPS + ("box", "box"))) for _ in range(F - 1)]
         S = 10 if d == 2 else 2
         ng = [rng.randint(2, 7 if d == 2 else 5) for _ in range(d)]
         if rng.random() < 0.15:
             ng[rng.randrange(d)] = 1
         N = rng.randint(4, 14)
-        F = rng.choice([1, 2, 2, 3])
-        cells = [rand_cell(rng, d, S, 3, 8) for _ in range(F)]
-        if F > 1 and rng.random() < 0.2:
-            cells = [cells[0]] * F                     # constant box
-        pos = [[[cells[f][2][k] + rng.randint(-S, cells[f][0][k][k] + S) for k in range(d)] for _ in range(N)] for f in range(F)]
-        sig = rng.choice([[1, 2], [1, 1], [3, 2], [2, 1]])
-        cut = [rng.randint(2, 8), 2]
+        H, b, _ = rand_cell(rng, d, S, 3, 8)
+        frames = [(H, b)]
+        for cstep, bstep in steps:
+            frames.append(next_frame(rng, d, S, frames[-1], cstep, bstep))
+        pos = []
+        for f, (H, b) in enumerate(frames):
+            if f and call >= len(plans) and rng.random() < 0.25:
+                pos.append([p[:] for p in pos[-1]])          # the particles did not move; the cell / the bounds may have
+            else:
+                pos.append([[b[k][0] + rng.randint(-S, (b[k][1] - b[k][0]) + S) for k in range(d)] for _ in range(N)])
         ppp = [rng.randint(0, 1) for _ in range(d)]
         if call % 2:           # unwrapped coordinates: particles displaced by -2..3 whole cell vectors along periodic axes
             for f in range(F):
@@ -467,25 +618,47 @@ def gen_blur(rng, lib, ncalls, trace, ctx):
                         if ppp[k]:
                             n = rng.randint(-2, 3)
                             for x in range(d):
-                                p[x] += n * cells[f][0][k][x]
+                                p[x] += n * frames[f][0][k][x]
+        if call >= len(plans) and call % 4 == 0:       # (calls without unwrapped coordinates)
+            # bounds as the gsd reader sets them: the extent of the particles of the frame (the cell is the box)
+            ext = [[[min(p[k] for p in pos[f]), max(p[k] for p in pos[f])] for k in range(d)] for f in range(F)]
+            if all(r[1] > r[0] for e in ext for r in e):
+                frames = [(frames[f][0], ext[f]) for f in range(F)]
+        sig = rng.choice([[1, 2], [1, 1], [3, 2], [2, 1]])
+        cut = [rng.randint(2, 8), 2]
+        cut = [cut[0] // 2, 1] if cut[0] % 2 == 0 else cut
         rank = rng.randint(0, 2)
         kind = rng.choice(BLUR_KINDS)
         cond = cond_array(rng, F, N, d, rank, kind)
-        ss = snapshots([snapshot(f, (np.array(pos[f], dtype=float) / S).tolist(), (np.array(cells[f][0], dtype=float) / S).tolist(),
-                                 (np.array(cells[f][1], dtype=float) / S).tolist()) for f in range(F)])
-        gp, gv, err = blur_call(lib["gaussian_blurring"], ss, cond, ng, sig[0] / sig[1], ppp, cut[0] / cut[1], ngkind=call % 3)
-        brief = {"ng": ng, "Hs": [c[0] for c in cells], "bs": [c[1] for c in cells], "S": S, "ppp": ppp, "sig": sig, "cut": cut,
-                 "N": N, "rank": rank, "cond_kind": kind}
+        Hs, bs = [fr[0] for fr in frames], [fr[1] for fr in frames]
+        ss = snapshots([snapshot(f, (np.array(pos[f], dtype=float) / S).tolist(), (np.array(Hs[f], dtype=float) / S).tolist(),
+                                 (np.array(bs[f], dtype=float) / S).tolist()) for f in range(F)])
+        kinds = dict(ngkind=call % len(NG_KINDS), pkind=(call // 2) % len(PPP_KINDS), nkind=call % len(NUM_KINDS))
+        before = frozen(ss, cond)
+        gp, gv, err = blur_call(lib["gaussian_blurring"], ss, cond, ng, sig, ppp, cut, **kinds)
+        brief = {"ng": ng, "Hs": Hs, "bs": bs, "S": S, "ppp": ppp, "sig": sig, "cut": cut,
+                 "N": N, "rank": rank, "cond_kind": kind,
+                 "rendered": {"ngrids": NG_KINDS[kinds["ngkind"]], "ppp": PPP_KINDS[kinds["pkind"]], "sigma": NUM_KINDS[kinds["nkind"]]}}
         if err is not None:
             ctx.append(("raise", f"raises:{type(err).__name__}", dict(brief, pos=pos, error=str(err))))
             continue
+        if gp.shape != (F, int(np.prod(ng)), d) or gv.shape != (F, int(np.prod(ng))) + (d,) * rank:
+            ctx.append(("raise", "GridShape", dict(brief, obs_shape=[list(gp.shape), list(gv.shape)])))
+            continue
+        if not unchanged(ss, cond, before):
+            ctx.append(("raise", "BlurInputUnchanged", dict(brief, pos=pos)))
+            continue
+        if chk is not None:
+            for f in range(1, F):
+                bump(chk, "blur_frame_transitions_cell_%s_bounds_%s" % (
+                    "same" if Hs[f] == Hs[f - 1] else "changed", "same" if bs[f] == bs[f - 1] else "changed"))
+        trace.append(dict(open_record(ng, bs), ctx=brief))
         for f in range(F):
-            H, bounds, _ = cells[f]
-            g = grid_record(ng, bounds, gp[f], scale=S)
-            g["ctx"] = dict(brief, frame=f)
+            g = grid_record(ng, gp[f], scale=S)
+            g["ctx"] = dict(brief, frame=f, bounds_of_the_frame=bs[f])
             trace.append(g)
             rid = len(pending) + 1
-            trace.append({"op": "blur", "id": rid, "ng": ng, "bounds": bounds, "S": S, "H": H, "ppp": ppp,
+            trace.append({"op": "blur", "id": rid, "S": S, "H": Hs[f], "ppp": ppp,
                           "pos": pos[f], "sig": sig, "cut": cut, "ctx": dict(brief, frame=f)})
             pending[rid] = (gv[f], np.asarray(cond[f], dtype=float), dict(brief, pos=pos[f], frame=f))
     return pending
@@ -511,8 +684,17 @@ def gen_spatial(rng, lib, ncalls, trace, tmp, ctx, chk=None):
         file, lists = [], []
         for f in range(F + (1 if rng.random() < 0.2 else 0)):       # the file may hold more frames than the property
             fr = []
+            # every frame has its own lists and its own largest coordination number (the reader's padded table changes
+            # width from frame to frame); one frame in seven lists nothing at all
+            if long_lists:
+                frame_choices = rng.sample(cn_choices, rng.randint(1, len(cn_choices)))
+            elif rng.random() < 0.15:
+                frame_choices = [0]
+            else:
+                top = rng.randint(1, max(cn_choices))
+                frame_choices = [c for c in cn_choices if c <= top]
             for i in range(N):
-                cn = rng.choice(cn_choices)
+                cn = rng.choice(frame_choices)
                 others = [j for j in range(1, N + 1) if j != i + 1]
                 row = rng.sample(others, cn)
                 if cn >= 2 and rng.random() < 0.05:
@@ -539,7 +721,8 @@ def gen_spatial(rng, lib, ncalls, trace, tmp, ctx, chk=None):
         path = os.path.join(tmp, f"nbB{call}.dat")
         write_neighbor_file(path, file)
         brief = {"N": N, "F": F, "nmax": nmax, "rank": rank, "d": d, "call": call, "dtype": kind,
-                 "max_cn": max(len(r) for fr in lists for r in fr)}
+                 "max_cn": max(len(r) for fr in lists for r in fr),
+                 "max_cn_per_frame": [max(len(r) for r in fr) for fr in lists]}
         try:
             if nmax == 30 and call % 2:
                 out = np.asarray(lib["spatial_average"](prop, path))          # documented default Nmax = 30
@@ -555,6 +738,11 @@ def gen_spatial(rng, lib, ncalls, trace, tmp, ctx, chk=None):
             continue
         if chk is not None:
             count_kind(chk, "spatial", kind)
+            per = brief["max_cn_per_frame"][:F]
+            if len(set(per)) > 1:
+                bump(chk, "spatial_calls_whose_frames_differ_in_largest_coordination_number")
+            if 0 in per and F > 1:
+                bump(chk, "spatial_calls_with_a_frame_that_lists_nothing")
             if brief["max_cn"] > 30:
                 chk.extra["spatial_calls_with_more_than_30_listed_neighbours"] = \
                     chk.extra.get("spatial_calls_with_more_than_30_listed_neighbours", 0) + 1
@@ -602,9 +790,10 @@ def gen_window(rng, lib, ncalls, trace, ctx, chk=None):
         brief = {"T": T, "N": N, "C": C, "ts": ts[:3], "dt": dt, "period": period, "dtype": kind}
         try:
             if dt == [1, 500]:     # the documented default time step
-                res, mid = lib["time_average"](ss, prop, time_period=period[0] / period[1])
+                res, mid = lib["time_average"](ss, prop, time_period=render_number(period, call % 3))
             else:
-                res, mid = lib["time_average"](ss, prop, time_period=period[0] / period[1], dt=dt[0] / dt[1])
+                res, mid = lib["time_average"](ss, prop, time_period=render_number(period, call % 3),
+                                               dt=render_number(dt, (call // 3) % 3))
         except Exception as e:
             ctx.append(("raise", f"raises:{type(e).__name__}", dict(brief, error=str(e))))
             continue
@@ -647,41 +836,106 @@ def validate(chk, trace, label):
         if len(rejects) >= 12:
             break
         offset += idx + 1
-        while offset < len(recs) and recs[offset]["op"] == "sa_frame":   # rest of the rejected call
+        while offset < len(recs) and recs[offset]["op"] in ("sa_frame", "grid", "blur"):   # rest of the rejected call
             offset += 1
     return rejects, printed
 
 
-def corrupt_one_field(chk, trace, rejected):
-    """binding self-test of the trace spec: one field of an accepted record is changed; the
-    spec must reject exactly that record with the matching clause (machinery error otherwise)"""
+def _lcm_den(rationals):
+    m = 1
+    for q in rationals:
+        m = math.lcm(m, int(q[1]))
+    return m
+
+
+def spec_records(models):
+    """Records written from the SPECIFICATION's own cases (what MC_CoarseGrain printed), not from anything the library
+    returned: a two-frame trajectory whose frames have different bounds, a spatial case, a window case.  The binding
+    self-test of the trace specification uses these only, so that it cannot be disturbed by a library that misbehaves."""
+    out = {}
+    for c in models["blur"].cases:
+        if len(c["bs"]) == 2 and c["bs"][0] != c["bs"][1] and len(c["slots"]) >= 4 and min(c["ng"]) >= 2:
+            out["blur"] = [open_record(c["ng"], c["bs"])] + \
+                [{"op": "grid", "M": c["M"], "obs": c["grids"][f], "exact": 1} for f in range(2)]
+            break
+    for c in models["spatial"].cases:
+        if c["F"] >= 2 and c["file"][0] != c["file"][1] and any(len(r) for r in c["file"][0]):
+            recs = [{"op": "sa_open", "nmax": c["nmax"], "file": c["rows"]}]
+            for f in range(c["F"]):
+                k = _lcm_den([q for pi in c["exp"][f] for q in pi])
+                recs.append({"op": "sa_frame", "nmax": c["nmax"], "prop": c["prop"][f], "oscale": k, "exact": 1,
+                             "obs": [[q[0] * (k // q[1]) for q in pi] for pi in c["exp"][f]]})
+            out.setdefault("spatial", []).append(recs)
+            if len(out["spatial"]) >= 4:
+                break
+    for c in models["window"].cases:
+        if c["w"] >= 2 and len(c["exp"]) >= 2 and c["rows"][0] >= 2:
+            rows = c["rows"][0]
+            k = _lcm_den([q for e in c["exp"][:rows] for pi in e["mean"] for q in pi])
+            out["window"] = [{"op": "window", "T": c["T"], "ts": c["ts"], "dt": c["dt"], "period": c["period"], "prop": c["prop"],
+                              "rows": rows, "centre": [e["centre"][0] for e in c["exp"][:rows]], "oscale": k, "exact": 1,
+                              "obs": [[[q[0] * (k // q[1]) for q in pi] for pi in e["mean"]] for e in c["exp"][:rows]]}]
+            break
+    if set(out) != {"blur", "spatial", "window"}:
+        raise MachineryError(f"self-test: the model printed no suitable case for {sorted({'blur', 'spatial', 'window'} - set(out))}")
+    return out
+
+
+def corrupt_one_field(chk, models):
+    """Binding self-test of the trace specification, on records written from the specification's own cases: (1) the
+    records as the specification states them must be accepted; (2) with one field changed, the spec must reject exactly
+    that record with the matching clause.  Anything else is a machinery error - and because no record of this test comes
+    from the library, a library regression can never turn up here (it is reported by the checks proper, exit 1)."""
     import copy
-    picks = {}
-    for i, r in enumerate(trace):
-        if i in rejected:
-            continue
-        if r["op"] == "grid" and len(r["obs"]) >= 4 and r["exact"] and "grid" not in picks:
-            c = copy.deepcopy(r)
-            c["obs"][1], c["obs"][2] = c["obs"][2], c["obs"][1]
-            picks["grid"] = (c, {"XSlowest"})
-        if r["op"] == "window" and r["rows"] >= 1 and "window" not in picks:
-            c = copy.deepcopy(r)
-            c["centre"][-1] += 2
-            picks["window"] = (c, {"WindowCentre"})
-        if r["op"] == "sa_frame" and i > 0 and trace[i - 1]["op"] == "sa_open" and r["exact"] and "sa" not in picks:
-            c = copy.deepcopy(r)
-            c["obs"][0][0] += 1
-            picks["sa"] = ([trace[i - 1], c], {"SpatialMean", "NeighbourFrameCursor"})
-    bad = []
-    for k, (c, want) in picks.items():
-        recs = c if isinstance(c, list) else [c]
-        recs = [{a: b for a, b in r.items() if a != "ctx"} for r in recs]
+    base = spec_records(models)
+    clean = base["blur"] + [r for recs in base["spatial"] for r in recs] + base["window"]
+    runs = [("clean", clean, None, None)]
+    g = copy.deepcopy(base["blur"])
+    g[1]["obs"][1], g[1]["obs"][2] = g[1]["obs"][2], g[1]["obs"][1]
+    runs.append(("grid:two-slots-swapped", g, 1, {"XSlowest"}))
+    g = copy.deepcopy(base["blur"])
+    g[2]["obs"] = g[1]["obs"]                         # the second frame delivered with the grid of the first frame's bounds
+    runs.append(("grid:kept-from-the-previous-frame", g, 2, {"GridSpansFrameBounds:grid-of-another-frame"}))
+    g = copy.deepcopy(base["blur"])
+    g[1]["obs"] = [[x + 1 for x in pt] for pt in g[1]["obs"]]
+    runs.append(("grid:translated", g, 1, {"EquallySpacedSpanningBounds"}))
+    sa = copy.deepcopy(base["spatial"][0])
+    sa[-1]["obs"][0][0] += 1
+    runs.append(("spatial:one-mean-changed", sa, len(sa) - 1, {"SpatialMean", "NeighbourFrameCursor"}))
+    # the second frame's result delivered first (the cursor out of step).  Two frames with different lists can still
+    # have equal means for particular values, so several of the specification's cases are tried: one must be rejected
+    alts = []
+    for recs in base["spatial"]:
+        sa = copy.deepcopy(recs)
+        sa[1]["prop"], sa[1]["obs"], sa[1]["oscale"] = sa[2]["prop"], sa[2]["obs"], sa[2]["oscale"]
+        alts.append(sa)
+    runs.append(("spatial:frames-out-of-step", alts, 1, {"NeighbourFrameCursor"}))
+    w = copy.deepcopy(base["window"])
+    w[0]["centre"][-1] += 2
+    runs.append(("window:centre-moved", w, 0, {"WindowCentre"}))
+    w = copy.deepcopy(base["window"])
+    w[0]["obs"][0][0][0] += 1
+    runs.append(("window:one-mean-changed", w, 0, {"WindowMean"}))
+
+    def one(run):
+        name, recs, idx, want = run
+        if recs and isinstance(recs[0], list):        # alternatives: one of them must be rejected as wanted
+            rej = None
+            for alt in recs:
+                r, rej = common.validate_trace("TraceCoarseGrain", alt)
+                if rej is not None and rej[0] == idx and rej[1] in want:
+                    return None
+            return (name, rej)
         r, rej = common.validate_trace("TraceCoarseGrain", recs)
-        if rej is None or rej[0] != len(recs) - 1 or rej[1] not in want:
-            bad.append((k, rej))
+        if idx is None:
+            return None if rej is None else (name, rej)
+        return None if (rej is not None and rej[0] == idx and rej[1] in want) else (name, rej)
+    with cf.ThreadPoolExecutor(max_workers=4) as ex:
+        bad = [b for b in ex.map(one, runs) if b]
     if bad:
-        raise MachineryError(f"TraceCoarseGrain accepted or misjudged a corrupted record: {bad}")
-    chk.extra["corrupted_records_rejected"] = len(picks)
+        raise MachineryError(f"TraceCoarseGrain rejected its own records or accepted / misjudged a corrupted one: {bad}")
+    chk.extra["corrupted_records_rejected"] = len(runs) - 1
+    chk.extra["selftest_records_from"] = "the specification's own cases (never from the library)"
 
 
 def finding_key_for(clause):
@@ -775,13 +1029,20 @@ def replay_one(chk, case, lib, tmp, rng, trace):
 def run(tier, replay=None):
     lib = load_lib()
     chk = Check("C16", tier)
-    chk.rule = ("A: TLC runs the Visit / AvgFrame / Window machines of MC_CoarseGrain over the whole scope (clauses = invariants) and "
-                "prints one case per finished behaviour (trajectories with per-frame cells / bounds, neighbour files with rows in any "
-                "order, real / complex / bool properties); each is rendered (arrays as float64 / int / bool / float32 / read-only / "
-                "strided / Fortran) and replayed into gaussian_blurring (ranks 0-2, every frame), spatial_average, time_average. "
-                "Returned grid positions of every frame are projected to integers and decided by TraceCoarseGrain. "
-                "B: seeded random scaled-integer inputs through the real code; TraceCoarseGrain (file cursor = spec variable) "
+    chk.rule = ("A: TLC runs the Visit / NextFrame / AvgFrame / Window machines of MC_CoarseGrain over the whole scope (clauses = invariants) and "
+                "prints one case per finished behaviour (trajectories whose frames each have their own bounds and their own cell - two "
+                "independent attributes: every combination of same cell / other lengths / other tilt with same bounds / shifted origin over "
+                "consecutive frames, 2-D and 3-D; neighbour files with rows in any order and per-frame lists; real / complex / bool "
+                "properties); each is rendered (arrays as float64 / int / bool / float32 / read-only / strided / Fortran; ngrids as int64 / "
+                "int32 / read-only array, list, tuple; masks as int64 / int32 / strided / read-only; whole-number sigma, cut-off, period as "
+                "float / int / numpy scalar) and replayed into gaussian_blurring (ranks 0-2, every frame, inputs left unchanged), "
+                "spatial_average, time_average (series whose frames differ in positions, cell and bounds). Returned grid positions go "
+                "to TraceCoarseGrain, which holds the frame cursor and decides them against the bounds of that frame (a grid that belongs to "
+                "another frame of the trajectory is named as such). "
+                "B: seeded random scaled-integer inputs through the real code; TraceCoarseGrain (file cursor, frame cursor = spec variables) "
                 "decides grid order, neighbour averages per frame, window length / centre / mean, and prints the expected blur terms. "
+                "The binding self-test of the trace specification (records with one field changed must be rejected with the matching "
+                "clause) uses records written from the specification's own cases only. "
                 "distinct = replayed cases + accepted trace records with a non-empty selection / neighbour list.")
     # "each grid point exactly once, x slowest" for ALL grid shapes: GridIndexLemma.tla, discharged by Apalache over
     # unbounded integers (the index the library used before its repair must be refuted)
@@ -821,6 +1082,8 @@ def run(tier, replay=None):
             if k != "grid" and not r.cases:
                 raise MachineryError(f"no cases emitted in mode {k}")
         chk.exhaustive = True
+        # binding self-test of the trace specification on the specification's own cases (independent of the library)
+        corrupt_one_field(chk, models)
 
         # ---- direction A
         traceA = []
@@ -832,8 +1095,8 @@ def run(tier, replay=None):
 
         # ---- direction B
         traceB, ctx = [], []
-        nb, ns, nw = (14, 40, 120) if tier == "quick" else (120, 400, 1500)
-        pending = gen_blur(rng, lib, nb, traceB, ctx)
+        nb, ns, nw = (18, 40, 120) if tier == "quick" else (120, 400, 1500)
+        pending = gen_blur(rng, lib, nb, traceB, ctx, chk)
         gen_spatial(rng, lib, ns, traceB, tmp, ctx, chk)
         gen_window(rng, lib, nw, traceB, ctx, chk)
         for kind, clause, c in ctx:
@@ -845,10 +1108,6 @@ def run(tier, replay=None):
         settle_trace(chk, traceB, rejects, "B")
         compare_blur_terms(chk, pending, printed)
         chk.samples.append({"trace_record": {k: v for k, v in traceB[-1].items() if k not in ("prop", "obs", "ctx")}})
-        # records after the last rejection of a truncated validation (12 rejections) were never judged: only
-        # records the trace spec has accepted qualify for the corruption self-test
-        judged = len(traceB) if len(rejects) < 12 else rejects[-1][0]
-        corrupt_one_field(chk, traceB[:judged], {i for i, _ in rejects})
         return chk.finish()
     finally:
         shutil.rmtree(tmp, ignore_errors=True)
